@@ -12,6 +12,8 @@ MOTION = ('G0', 'G1', 'G2', 'G3')
 
 
 def declare(c):
+    c.rule('C03.R8', 'C03: the travel generated when a move leaves a region goes to the position tracked at the end of that command '
+                     '(the tested destination, outside every region) - with both X and Y, and Z unless unchanged', floor=50)
     c.rule('C01.R1', 'a forwarded move requires a region test that failed (or exclusion disabled) and a state that is '
                      'not excluding; X/Y/Z words are synthesised only when leaving a region', floor=200)
     c.rule('C01.R2', 'while an episode is open (and on the entering move) only the enter script and genuine '
@@ -80,6 +82,10 @@ def path_rules(col, gcode, paths, I):
         if f.raised:
             continue
         sig = (gcode, f.describe(), tuple(f.decisions()[-6:]))
+        if f.pre_excluding is True and f.post_excluding() is False and gcode in ('G0', 'G1', 'G2', 'G3') \
+                and f.kind == 'list' and ('ExcludeRegionState', 'exitExcludedRegion') in f.calls:
+            from .rules_c03 import leaving_rule
+            leaving_rule(col, gcode, p, f, I)
         called_plm = ('ExcludeRegionState', 'processLinearMoves') in f.calls
         post = f.post_excluding()
         kinds = f.elem_kinds()
@@ -248,6 +254,12 @@ def run(ctx, tier):
     run_path_rules(ctx, __name__, 'path_rules', list(MOTION) + ['G10', 'G11'], unroll=2 if tier == 'thorough' else 1,
                    debug_logging=(tier == 'thorough'))
     coverage_rules(ctx, tier)
+    # the exit sequence itself: exactly one G92 E and one X/Y travel with both words, Z ordering, logical values (C03.R1 / R4)
+    from . import rules_c03
+    from .entries import make_interp as _mk
+    ctx.rule('C03.R1', 'C03: exit composition - pending, exit script, G92 E, one X/Y travel, Z before XY iff rising / after iff falling', floor=6)
+    ctx.rule('C03.R4', 'C03: every word of the exit commands is the logical value of the tracked native position', floor=6)
+    rules_c03.exit_rules(ctx, _mk(ctx.model), {('fld', S_OID, 'excluding'): [True]}, 'exitExcludedRegion')
     from .entries import make_interp
     from .rules_c08 import native_args_rule
     native_args_rule(ctx, make_interp(ctx.model), 'C01.R8', 'C01.R8')
